@@ -1812,7 +1812,7 @@ func irWrites(p *pkgInfo) []any {
 				}
 				return true
 			})
-			// directRoot: e = x[i][j]... or x.f (by-value) with x a fresh local: private
+			// directRoot: e = x[i][j]..., or a by-value field x[i].f of such an element, with x a fresh local: private
 			var directRoot func(e ast.Expr) types.Object
 			directRoot = func(e ast.Expr) types.Object {
 				switch x := e.(type) {
@@ -1822,6 +1822,15 @@ func irWrites(p *pkgInfo) []any {
 					return directRoot(x.X)
 				case *ast.ParenExpr:
 					return directRoot(x.X)
+				case *ast.SelectorExpr:
+					// field of a struct VALUE stored in the fresh slice/array (not reached through a pointer)
+					if t := typeOf(x.X); t != nil {
+						if _, isPtr := t.Underlying().(*types.Pointer); !isPtr {
+							if _, isIdx := x.X.(*ast.IndexExpr); isIdx {
+								return directRoot(x.X)
+							}
+						}
+					}
 				}
 				return nil
 			}
